@@ -904,6 +904,22 @@ def _check_condition_consumer(ctx: Context, idx) -> None:
         ctx.violation("C20f", key, fn.file, b.lineno,
                       f"`{norm(b)[:70]}` compares (or computes with) the value of the condition instead of using its truth value: a condition "
                       f"like `x[0]` with outcome 2, or `x[0] and x[1]` returning 3, is true in Python but is treated as not met", norm(b)[:100])
+    # an error raised while the condition is evaluated is an error in Python (`if x[1] == 2:` on a one-element tuple raises IndexError): a
+    # handler around the call may re-raise (wrapped), it may not turn the error into "met" / "not met"
+    keyh = f"{icls.qualname}._is_condition_met|errors stay errors"
+    swallow = []
+    for t in ast.walk(fn.node):
+        if isinstance(t, ast.Try) and any(any(x is c for x in ast.walk(t)) for c in calls):
+            for h in t.handlers:
+                ends = h.body[-1] if h.body else None
+                if not isinstance(ends, ast.Raise) and not any(isinstance(x, ast.Raise) for x in ast.walk(h)):
+                    swallow.append(h)
+    ctx.obligation("C20f", keyh, not swallow, f"{ctx.relpath(fn.file)}:{fn.line}")
+    for h in swallow:
+        ctx.violation("C20f", keyh, fn.file, h.lineno,
+                      f"`except {norm(h.type) if h.type is not None else ''}` around the evaluation of the condition does not re-raise: an expression that "
+                      f"raises in Python (an index beyond the outcomes recorded so far, a division by zero) silently counts as not met / met and the "
+                      f"conditioned instruction is skipped or applied", norm(h).split(chr(10))[0][:100])
     # the caller decides by truthiness as well
     sim = idx.find_class("piquasso.api.simulator", "Simulator")
     n_sites = 0
